@@ -226,6 +226,39 @@ def shard_twin(seed, count):
     return acc
 
 
+# "when it passes, it behaves as the unconditional instruction": every encoding with a PASSING condition - ARM cond field, Thumb instructions in
+# every position of an IT block (last-in-block favoured: interworking branches, PC loads) - against the reference step, which evaluates the
+# condition from the table above and otherwise knows nothing about conditions
+def _pass_kw(rng, row):
+    return {'mpu': False, 'mmu': False, 'e': 0}
+
+
+def _pass_tweak(rng, row, w, case):
+    st = case['state']
+    it = ((st['cpsr'] >> 25) & 3) | (((st['cpsr'] >> 10) & 0x3F) << 2)
+    thumb = bool(st['cpsr'] & 0x20)
+    if thumb:
+        if rng.random() < 0.7:
+            cond = rng.randrange(14)
+            it = (cond << 4) | (0b1000 if rng.random() < 0.6 else rng.choice((0b0100, 0b1100, 0b0010, 0b0001)))
+            st['cpsr'] = (st['cpsr'] & ~0x0600FC00) | ((it & 3) << 25) | ((it >> 2) << 10)
+        cond = (it >> 4) if it & 0xF else 14
+    else:
+        cond = w >> 28
+    if cond < 14:
+        st['cpsr'] = (st['cpsr'] & 0x0FFFFFFF) | (passing_flags(rng, cond) << 28)
+    # interworking targets in both instruction sets for BX / BLX / PC loads
+    mode = gen.MODE_NAME[st['cpsr'] & 31]
+    for n in range(8):
+        if rng.random() < 0.3:
+            st[gen.bank_key(n, mode)] = (st['R.PC'] & ~0xFF) + 4 * rng.randrange(0, 0x30) + rng.choice((0, 1))
+
+
+PLAN_PASS = e1prop.Plan('C05', ALLROWS, cfgs=('v6', 'v7', 'v5'), case_kw=_pass_kw, tweak_case=_pass_tweak,
+                        classify=lambda res, case: ['passing:' + ('it-last' if (case['state']['cpsr'] & 0x0600FC00) and ((case['state']['cpsr'] >> 25) & 3) == 0 and
+                                                                  ((case['state']['cpsr'] >> 10) & 3) == 0b10 else 'other')] if res.cond_passed else [])
+
+
 def run(ctx):
     ctx.rule = ('(1) exhaustive: 15 conditions x 16 NZCV x {ARM MOVcc, Thumb Bcc T1, Bcc.W T3, IT cc then-slot, ITE else-slot} against the '
                 'condition table written by meaning (EQ = Z set, HI = C set and Z clear, ...). (2) identity: every encoding row of all three '
@@ -238,6 +271,7 @@ def run(ctx):
     tasks = [(shard_table, (ctx.shard_seed(0),))]
     tasks += [(shard_identity, (ctx.shard_seed(10 + i), ctx.n(4000, 80000))) for i in range(24)]
     tasks += [(shard_twin, (ctx.shard_seed(100 + i), ctx.n(1500, 30000))) for i in range(8)]
+    tasks += [(e1prop.shard, ('vf.props.c05:PLAN_PASS', ctx.shard_seed(200 + i), ctx.n(250, 5000))) for i in range(8)]
     ctx.pmap(_dispatch, tasks)
     ctx.acc.exhaustive = True
     ctx.acc.extra['exhaustive_part'] = 'condition table 15 x 16 x 5 forms x 2 configs'
@@ -249,6 +283,8 @@ def _dispatch(fn, args):
 
 def replay(case, bucket=None):
     # identity / table cases are replayed through the generic E1 differential (condition handling is part of the reference step)
+    if bucket and bucket.split(':')[1] in e1prop.ROWS:
+        return e1prop.replay(PLAN_PASS, case)
     if case.get('via_deepcopy'):
         import copy
         orig = e1.build(case)
